@@ -427,6 +427,45 @@ Definition tucker_to_unfolded_einsum core fs (mode : nat) skip tr :=
   rbind (tucker_to_tensor_einsum core fs skip tr) (fun t => unfold zero t mode).
 Definition tucker_to_vec_einsum core fs skip tr := rbind (tucker_to_tensor_einsum core fs skip tr) tensor_to_vec.
 
+(* What np.einsum REALLY does with the operands of the einsum multi_mode_dot when they do not fit (the route does not validate
+   them): a label must have one size across the operands, size-1 occurrences being BROADCAST; core modes beyond the last factor are
+   kept; a factor that is not skipped, beyond the last core mode is an IndexError.  `ein_tk_dims_b` returns (result shape, label sizes);
+   on operands whose shapes agree exactly this is the model above (Proofs18: tucker_einsum_b_extends). *)
+Definition ein_skipped (skip : option nat) (k : nat) : bool := match skip with Some s => s =? k | None => false end.
+Definition ein_delta (i j : nat) : F := if i =? j then one else zero.
+Fixpoint bidxs (cs js : list nat) : list nat :=
+  match cs, js with c :: cs', j :: js' => bidx c j :: bidxs cs' js' | _, _ => [] end.
+Fixpoint ein_tk_dims_b (k : nat) (skip : option nat) (cs : list nat) (Ms : list (tensor F)) : res (list nat * list nat) :=
+  match Ms, cs with
+  | [], _ => Ok (cs, cs)
+  | M :: Ms', [] => if ein_skipped skip k then ein_tk_dims_b (S k) skip [] Ms' else Err
+  | M :: Ms', c :: cs' =>
+      if ein_skipped skip k then rbind (ein_tk_dims_b (S k) skip cs' Ms') (fun nl => Ok (c :: fst nl, c :: snd nl))
+      else if (ndim M =? 2) && ((ncols M =? c) || (ncols M =? 1) || (c =? 1))
+           then rbind (ein_tk_dims_b (S k) skip cs' Ms') (fun nl =>
+                  Ok (nrows M :: fst nl, (if ncols M =? 1 then c else ncols M) :: snd nl))
+           else Err
+  end.
+Fixpoint ein_tk_prod_b (k : nat) (skip : option nat) (Ms : list (tensor F)) (is js : list nat) : F :=
+  match is, js with
+  | i :: is', j :: js' =>
+      (match Ms with
+       | M :: _ => if ein_skipped skip k then ein_delta i j else get2 M i (bidx (ncols M) j)
+       | [] => ein_delta i j
+       end) *f ein_tk_prod_b (S k) skip (tl Ms) is' js'
+  | _, _ => one
+  end.
+Definition tucker_to_tensor_einsum_b (core : tensor F) (fs : list (tensor F)) (skip : option nat) (tr : bool) : res (tensor F) :=
+  let fs' := if tr then map mT fs else fs in
+  if tr && negb (forallb (fun M => ndim M =? 2) fs) then Err else
+  rbind (ein_tk_dims_b 0 skip (shape core) fs') (fun nl =>
+    Ok (tabulate (fst nl) (fun idx =>
+          sum_idx F zero (fadd Op) (snd nl)
+            (fun js => get zero core (bidxs (shape core) js) *f ein_tk_prod_b 0 skip fs' idx js)))).
+Definition tucker_to_unfolded_einsum_b core fs (mode : nat) skip tr :=
+  rbind (tucker_to_tensor_einsum_b core fs skip tr) (fun t => unfold zero t mode).
+Definition tucker_to_vec_einsum_b core fs skip tr := rbind (tucker_to_tensor_einsum_b core fs skip tr) tensor_to_vec.
+
 (* ------------------------------------------------------------------ PARAFAC2 *)
 (* P^T P == I, decided exactly (on integer-valued projections |P^T P - I| > 1e-5 iff P^T P <> I) *)
 Definition orthonormalb (P : tensor F) (rank : nat) : bool :=
